@@ -4,8 +4,8 @@ import (
 	"context"
 	"errors"
 	"fmt"
-	"net/http"
 	"net"
+	"net/http"
 	"net/http/httptest"
 	"os"
 	"runtime"
